@@ -240,6 +240,9 @@ def check_glue(P, R):
 
 
 def check(P, R, tier):
+    import zifdecode
+    nz = zifdecode.run(R, P, "RF2-zifopen")
+    R.floor("RF2-zifopen", "decoded loads and offset lookups on synthetic zone files", nz, 100)
     n = tzrules.index_narrowing(P, R, "RF3-index", ["tzraw.c"],
                                 sources_calls={"__find_trno", "zif_find_trans"}, sources_members={"ntr", "trno"},
                                 field_floor=[("zrng_s", "trno", 31)])
